@@ -219,7 +219,7 @@ func c08Menu(w *wworld.World) []string {
 	return ops
 }
 
-func c08Specs(quick bool) []*wSpec {
+func c08OwnSpecs(quick bool) []*wSpec {
 	cfg := wworld.Config{FeeA: 100, FeeB: 0, TwoMints: true, Wallets: []wworld.WalletCfg{{Default: "a"}, {Default: "a"}, {Default: "b"}}}
 	// W1 holds proofs with DLEQ{e,s,r}; W2 is created by Restore from a funded mnemonic (its proofs carry no DLEQ)
 	// (W2 mints 64 so that after the restore its biggest coins are DLEQ-less ones)
@@ -244,4 +244,8 @@ func init() {
 		Worker: wWorker(c08All),
 		Replay: func(p string) int { return wReplay("C08", c08All, p) },
 	})
+}
+
+func c08Specs(quick bool) []*wSpec {
+	return append(c08OwnSpecs(quick), wUnionSpec("C08", quick, c08Setup, nil, true))
 }
